@@ -19,7 +19,10 @@ import (
 //	         only on `read` ops; never told to read = stalled). Subscriber ids are given in order of sub ops.
 //	batch    Batch(Key, fresh value)
 //	adv      move the clock forward by N milliseconds
-//	rounds   N times { Batch(Key or, if Key<0, keys 0..2 in turn, fresh value); adv one interval }
+//	rounds   N times { Batch(Key or, if Key==-1, keys 0..2 in turn, or, if Key<=-2, a key never used before; fresh value); adv one interval }
+//	drain    the manual reader of subscriber Sub resumes reading and reads until it has caught up: everything the
+//	         fan-out handed to its buffer has been received and the queue's loop is idle (or, when values stop
+//	         coming although some are outstanding, after a long silence); logs `drained` when it ends that way
 //	cancel   cancel the context of subscriber Sub
 //	read     the manual reader of subscriber Sub receives up to N values
 //	close    N overlapping Close calls (N<1: one); may be issued again later
@@ -49,7 +52,7 @@ func (o Op) String() string {
 		return fmt.Sprintf("%s:%d/%d", o.Op, o.Sub, o.N)
 	case "rounds":
 		return fmt.Sprintf("rounds:%d/%d", o.Key, o.N)
-	case "cancel", "parksend", "parkexit":
+	case "cancel", "parksend", "parkexit", "drain":
 		return fmt.Sprintf("%s:%d", o.Op, o.Sub)
 	case "close":
 		return fmt.Sprintf("close:%d", o.N)
@@ -153,6 +156,12 @@ type World struct {
 
 	subs    []*subRec
 	nextVal int
+	nextKey int // rounds with Key<=-2: keys never used before
+
+	// drainSilence: how long a draining reader waits without receiving anything, although the fan-out
+	// made more send attempts for it than it has received, before it gives up (generous: on the
+	// unchanged code every attempt for a live subscriber ends in a receive, so this wait never runs out)
+	drainSilence time.Duration
 
 	loopState    atomic.Int32
 	resetPending atomic.Bool
@@ -182,7 +191,7 @@ type World struct {
 
 func NewWorld(cap int) *World {
 	base := time.Unix(1700000000, 0).UTC()
-	w := &World{base: base, clk: NewVClock(base), cap: cap, nextVal: 1}
+	w := &World{base: base, clk: NewVClock(base), cap: cap, nextVal: 1, nextKey: 10, drainSilence: 600 * time.Millisecond}
 	w.lastSendSub.Store(-1)
 	w.b = batcher.New[int, int](time.Duration(intervalNs))
 	w.b.WithClock(w.clk)
@@ -560,8 +569,11 @@ func (w *World) exec(o Op) {
 	case "rounds":
 		for j := 0; j < o.N; j++ {
 			k := o.Key
-			if k < 0 {
+			if k == -1 {
 				k = j % 3
+			} else if k < -1 {
+				k = w.nextKey
+				w.nextKey++
 			}
 			w.doBatch(k)
 			w.settle(opGrace)
@@ -600,6 +612,41 @@ func (w *World) exec(o Op) {
 			if !got {
 				break
 			}
+		}
+		w.settle(opGrace)
+	case "drain":
+		subs := w.subsSnapshot()
+		if o.Sub >= len(subs) || subs[o.Sub].reader != "manual" {
+			w.skipped++
+			return
+		}
+		s := subs[o.Sub]
+		lastGot := time.Now()
+		hardStop := time.Now().Add(20 * time.Second)
+		for !s.closed.Load() {
+			got, closed := w.tryRecv(s)
+			if closed {
+				break
+			}
+			if got {
+				lastGot = time.Now()
+				continue
+			}
+			held := w.heldSend.Load() || w.heldExit.Load() > 0
+			if !held && s.received.Load() >= s.attempts.Load() && w.loopIdle() && !w.inExec.Load() {
+				// caught up: decide under the trace mutex so that the position of `drained` is exact
+				if w.logDrained(s, true) {
+					break
+				}
+				continue
+			}
+			if time.Since(lastGot) > w.drainSilence || time.Now().After(hardStop) {
+				if !held && w.loopIdle() && !w.inExec.Load() {
+					w.logDrained(s, false)
+				}
+				break
+			}
+			time.Sleep(15 * time.Microsecond)
 		}
 		w.settle(opGrace)
 	case "close":
@@ -688,6 +735,24 @@ func (w *World) closeReturned() {
 	w.closeRet.Store(true)
 }
 
+// logDrained logs `drained sub` if (strict) the reader still has everything the fan-out attempted to
+// hand to it, checked under the trace mutex; V=1 marks a drain that ended by silence instead.
+func (w *World) logDrained(s *subRec, strict bool) bool {
+	w.mu.Lock()
+	defer w.mu.Unlock()
+	if strict && s.received.Load() < s.attempts.Load() {
+		return false
+	}
+	e := Ev{K: "drained", Sub: s.id, Now: w.nowNs()}
+	if !strict {
+		e.V = 1
+	}
+	if !w.dead.Load() {
+		w.evs = append(w.evs, e)
+	}
+	return true
+}
+
 func (w *World) waitFor(d time.Duration, cond func() bool) bool {
 	deadline := time.Now().Add(d)
 	for {
@@ -742,6 +807,9 @@ func runCase(c Case, cap int, final time.Duration) Outcome {
 	worldMu.Lock()
 	defer worldMu.Unlock()
 	w := NewWorld(cap)
+	if 2*final > w.drainSilence {
+		w.drainSilence = 2 * final
+	}
 	verifhook.Set(w.hook)
 	defer verifhook.Set(nil)
 	for _, o := range c.Ops {
